@@ -1,9 +1,9 @@
 SPECIFICATION GSpec
 CONSTANTS
   NObj = 2
-  ObjType <- GenObjType
+  ObjType <- GenObjTypeDD
   NSlot = 3
-  SlotType <- GenSlotTypeBDD
+  SlotType <- GenSlotTypeCBD
   MaxExplicit = 1
   Policy <- GenPolicy
   Layout <- GenLayout
